@@ -436,12 +436,15 @@ var c05Templates = []diffTmpl{
 	{"local a, b = x, y; local function seta(v) a = v end; local function getb() return b end; pcall(error, 'e'); local function setb(v) b = v end; setb(z); seta(1); emit(a, b, getb())", "num"},
 	{"local ok, e = pcall(error, '100%', 0); emit(ok, e); local ok2, e2 = pcall(function() error('rate=%d items %s', 0) end); emit(ok2, e2); emit(select(2, pcall(error, '%%', 0)))", "num"},
 	{"emit(pcall(error, 'x', 100)); emit(coroutine == nil); local ok, e = pcall(error, 'lvl0', 0); emit(ok, e)", "num"},
+	{"local ops = {error, pcall, select}; local ok, e = pcall(function() ops[1](x) end); emit(ok, e); emit(ops[2](function() ops[1]({}) end)); local k = 3; emit((pcall(function() return ops[k](-9, 1) end))); local function getf() return ops[1] end; emit(pcall(function() getf()(y) end))", "num"},
+	{"local lib = {pcall, next}; emit(lib[1](function() error(x) end)); emit((lib[1](lib[2], nil))); emit(select(2, xpcall(function() lib[2](5) end, function(m) return type(m) end)))", "num"},
+	{"emit(xpcall(function() error(x) end, function(e) return e end)); emit(xpcall(function() error({k = y}) end, function(e) return type(e), e.k end)); emit(xpcall(function() error() end, function(e) return e == nil end)); emit(xpcall(function() error(false) end, function(e) return e end))", "num"},
 	{"local function lvl() error({v = x}) end; local ok, e = pcall(function() lvl() end); emit(ok, e.v)", "num"},
 }
 
 // C05.tmpl — errors contained by protected calls, whole pipeline against R-lua.
 //
-//verif:harness prop=C05 tier=quick bounds="20 error templates: error values of every type, faults, nested pcall, errors inside metamethods and iterators, retry loops, side effects before/after; inputs symbolic"
+//verif:harness prop=C05 tier=quick bounds="23 error templates: error values of every type, faults, nested pcall, errors inside metamethods and iterators, retry loops, side effects before/after; inputs symbolic"
 func H_C05_tmpl() {
 	t := c05Templates[VChoice(len(c05Templates))]
 	diffRun(t.src, t.src, c01Inputs(t.kind), Options{})
